@@ -207,7 +207,13 @@ def correspondence(rng, tier):
     import odl
     from odl.discr.partition import (uniform_partition_fromintv, uniform_partition_fromgrid,
                                      uniform_partition, nonuniform_partition)
-    cs = C.CaseSet('part', IMPORTS, 'check', 'case')
+    # variant switch for finding C14/getitem-int-below-minus-n: which behaviour does /repo exhibit?
+    try:
+        odl.uniform_partition(0, 3, 3)[-5]
+        strict = False
+    except IndexError:
+        strict = True
+    cs = C.CaseSet('part', IMPORTS, 'check %s' % C.b(strict), 'case')
     N = 1 if tier == 'quick' else 4
 
     def add(opterm, out, desc, trivial=False):
